@@ -68,6 +68,20 @@ Definition mism_fl_getb32 := Eval vm_compute in
     | None => false end) cases_fl_getb32.
 Print mism_fl_getb32.
 
+Definition mism_fl_fmul := Eval vm_compute in
+  failing (fun c : list Z * list Z * list Z => let '(i, j, o) := c in
+    match t10 i, t10 j with
+    | Some (a0, a1, a2, a3, a4, a5, a6, a7, a8, a9), Some (b0, b1, b2, b3, b4, b5, b6, b7, b8, b9) =>
+        same10 (Field_Mul a0 a1 a2 a3 a4 a5 a6 a7 a8 a9 b0 b1 b2 b3 b4 b5 b6 b7 b8 b9) o
+    | _, _ => false end) cases_fl_fmul.
+Print mism_fl_fmul.
+Definition mism_fl_sqr := Eval vm_compute in
+  failing (fun c : list Z * list Z => let '(i, o) := c in
+    match t10 i with
+    | Some (a0, a1, a2, a3, a4, a5, a6, a7, a8, a9) => same10 (Field_Sqr a0 a1 a2 a3 a4 a5 a6 a7 a8 a9) o
+    | None => false end) cases_fl_sqr.
+Print mism_fl_sqr.
+
 (* the theorems' statements, decided on the implementation's own outputs
    (Model/FieldSpec.v only, no translated code): whenever the premise of
    C14_Normalize_correct holds of the input, the observed limbs are canonical and
@@ -99,3 +113,23 @@ Definition pf_fl_neg := Eval vm_compute in
 Print pf_fl_neg.
 Definition n_fl_norm_in_premise := Eval vm_compute in count_true (fun c : list Z * list Z => norm_preb (fst c)) cases_fl_norm.
 Print n_fl_norm_in_premise.
+
+(* Mul / Sqr on the implementation's outputs: for inputs of magnitude <= 8 the result
+   stands for the product modulo p and has magnitude 1 except for limb 2 (< 2^27) *)
+Definition mul_outb (l : list Z) : bool :=
+  match l with
+  | [a0; a1; a2; a3; a4; a5; a6; a7; a8; a9] =>
+      forallb (fun x => (0 <=? x) && (x <=? 67108863)) [a0; a1; a3; a4; a5; a6; a7; a8] &&
+      (0 <=? a2) && (a2 <? 2 ^ 27) && (0 <=? a9) && (a9 <=? 4194303)
+  | _ => false end.
+Definition pf_fl_fmul := Eval vm_compute in
+  failing (fun c : list Z * list Z * list Z => let '(i, j, o) := c in
+    negb (magb 8 i && magb 8 j) || (mul_outb o && (val_l o mod p =? (val_l i * val_l j) mod p))) cases_fl_fmul.
+Print pf_fl_fmul.
+Definition pf_fl_sqr := Eval vm_compute in
+  failing (fun c : list Z * list Z => let '(i, o) := c in
+    negb (magb 8 i) || (mul_outb o && (val_l o mod p =? (val_l i * val_l i) mod p))) cases_fl_sqr.
+Print pf_fl_sqr.
+Definition n_fl_fmul_in_premise := Eval vm_compute in
+  count_true (fun c : list Z * list Z * list Z => let '(i, j, o) := c in magb 8 i && magb 8 j) cases_fl_fmul.
+Print n_fl_fmul_in_premise.
